@@ -29,6 +29,7 @@ import (
 	specssv "github.com/bloxapp/ssv-spec/ssv"
 	spectypes "github.com/bloxapp/ssv-spec/types"
 	"github.com/bloxapp/ssv-spec/types/testingutils"
+	ssz "github.com/ferranbt/fastssz"
 	"go.uber.org/zap"
 	"pgregory.net/rapid"
 
@@ -153,17 +154,19 @@ func TestMain(m *testing.M) {
 // (D), so that every op generator is context free and still aims at, just below or just above the
 // interesting heights; the interpreter resolves them (see resolve) and prints the absolute program.
 type Op struct {
-	K      string `json:"k"`                // duty ctrlstart cert local finish restart
+	K      string `json:"k"`                // duty ctrlstart cert local precons finish restart
 	D      int    `json:"d,omitempty"`      // duty ctrlstart cert: slot = cursor+D, at least 1 (0 only when Base is 0)
 	Round  uint64 `json:"round,omitempty"`  // cert: round of the certificate
-	Extra  int    `json:"extra,omitempty"`  // cert local: signers beyond quorum (clamped to the committee)
-	Perm   []int  `json:"perm,omitempty"`   // cert local: order in which operators are picked as signers
+	Extra  int    `json:"extra,omitempty"`  // cert local precons: signers beyond quorum (clamped to the committee)
+	Perm   []int  `json:"perm,omitempty"`   // cert local precons: order in which operators are picked as signers
 	Upto   string `json:"upto,omitempty"`   // local: proposal | prepare | commit
 	Reopen bool   `json:"reopen,omitempty"` // restart: close and re-open the database (disk cases only)
-	Probe  bool   `json:"probe,omitempty"`  // restart: then StartNewDuty at (restored height + D)
+	Probe  bool   `json:"probe,omitempty"`  // restart: then StartNewDuty at (restored height + D); cert: then StartNewDuty at (its height + D2)
+	D2     int    `json:"d2,omitempty"`     // cert with probe
 }
 
 type Prog struct {
+	Role string `json:"role,omitempty"` // attester (default) | aggregator | proposer | sync-contribution
 	N    int    `json:"n"`
 	Self int    `json:"self"`
 	Full bool   `json:"full_node"`
@@ -174,15 +177,32 @@ type Prog struct {
 
 // ---- fixtures -----------------------------------------------------------------------------------
 
-func dutyFor(share *spectypes.Share, slot uint64) *spectypes.Duty {
+func roleOf(name string) spectypes.BeaconRole {
+	switch name {
+	case "", "attester":
+		return spectypes.BNRoleAttester
+	case "aggregator":
+		return spectypes.BNRoleAggregator
+	case "proposer":
+		return spectypes.BNRoleProposer
+	case "sync-contribution":
+		return spectypes.BNRoleSyncCommitteeContribution
+	}
+	panic("bad role " + name)
+}
+
+func dutyFor(role spectypes.BeaconRole, share *spectypes.Share, slot uint64) *spectypes.Duty {
 	d := &spectypes.Duty{
-		Type:                    spectypes.BNRoleAttester,
+		Type:                    role,
 		Slot:                    phase0.Slot(slot),
 		ValidatorIndex:          testingutils.TestingValidatorIndex,
 		CommitteeIndex:          3,
 		CommitteesAtSlot:        36,
 		CommitteeLength:         128,
 		ValidatorCommitteeIndex: 11,
+	}
+	if role == spectypes.BNRoleSyncCommitteeContribution {
+		d.ValidatorSyncCommitteeIndices = testingutils.TestingContributionProofIndexes
 	}
 	copy(d.PubKey[:], share.ValidatorPubKey)
 	return d
@@ -194,33 +214,50 @@ var (
 	crtMemo = map[string][]byte{}
 )
 
-// valueFor is the one value every operator proposes and decides for a slot: the duty plus the attestation
-// data ssv-spec's TestingBeaconNode returns for that slot (the node's own input is byte-identical).
-func valueFor(share *spectypes.Share, slot uint64) []byte {
-	key := fmt.Sprintf("%x/%d", share.ValidatorPubKey, slot)
+// valueFor is the one value every operator proposes and decides for a slot: the duty plus what ssv-spec's
+// TestingBeaconNode returns for that role (for the attester the node's own input is byte-identical).
+func valueFor(role spectypes.BeaconRole, share *spectypes.Share, slot uint64) []byte {
+	key := fmt.Sprintf("%d/%x/%d", role, share.ValidatorPubKey, slot)
 	valMu.Lock()
 	defer valMu.Unlock()
 	if v, ok := valMemo[key]; ok {
 		return v
 	}
-	att, ver, err := testingutils.NewTestingBeaconNode().GetAttestationData(phase0.Slot(slot), 3)
-	if err != nil {
-		panic(err)
+	cd := &spectypes.ConsensusData{Duty: *dutyFor(role, share, slot)}
+	switch role {
+	case spectypes.BNRoleAttester:
+		att, ver, err := testingutils.NewTestingBeaconNode().GetAttestationData(phase0.Slot(slot), 3)
+		if err != nil {
+			panic(err)
+		}
+		ssz, err := att.MarshalSSZ()
+		if err != nil {
+			panic(err)
+		}
+		cd.Version, cd.DataSSZ = ver, ssz
+	case spectypes.BNRoleAggregator:
+		cd.Version, cd.DataSSZ = spec.DataVersionPhase0, testingutils.TestingAggregateAndProofBytes
+	case spectypes.BNRoleProposer:
+		cd.Version, cd.DataSSZ = spec.DataVersionCapella, testingutils.TestingBeaconBlockBytesV(spec.DataVersionCapella)
+	case spectypes.BNRoleSyncCommitteeContribution:
+		cd.Version, cd.DataSSZ = spec.DataVersionBellatrix, testingutils.TestingContributionsDataBytes
 	}
-	ssz, err := att.MarshalSSZ()
-	if err != nil {
-		panic(err)
-	}
-	if ver != spec.DataVersionPhase0 {
-		panic("unexpected data version")
-	}
-	cd := &spectypes.ConsensusData{Duty: *dutyFor(share, slot), Version: ver, DataSSZ: ssz}
 	v, err := cd.Encode()
 	if err != nil {
 		panic(err)
 	}
 	valMemo[key] = v
 	return v
+}
+
+// beaconNode is ssv-spec's TestingBeaconNode, except that GetBeaconBlock does not derive the block version from the
+// slot (the testing node panics for slots before its Capella fork epoch).
+type beaconNode struct {
+	*testingutils.TestingBeaconNode
+}
+
+func (bn beaconNode) GetBeaconBlock(slot phase0.Slot, graffiti, randao []byte) (ssz.Marshaler, spec.DataVersion, error) {
+	return testingutils.TestingBeaconBlockV(spec.DataVersionCapella).Capella, spec.DataVersionCapella, nil
 }
 
 func clone(m *specqbft.SignedMessage) *specqbft.SignedMessage {
@@ -240,6 +277,7 @@ func clone(m *specqbft.SignedMessage) *specqbft.SignedMessage {
 type node struct {
 	ctrl *controller.Controller
 	run  runner.Runner
+	net  *fx.Net
 }
 
 type stored struct {
@@ -260,6 +298,7 @@ func (s stored) String() string {
 
 type env struct {
 	p      Prog
+	role   spectypes.BeaconRole
 	ks     *testingutils.TestKeySet
 	q      int
 	share  *spectypes.Share
@@ -275,17 +314,74 @@ func (e *env) logf(f string, a ...any) { e.log = append(e.log, fmt.Sprintf(f, a.
 
 func (e *env) dump() string { return "  " + strings.Join(e.log, "\n  ") }
 
-// newNode builds controller + attester runner the way operator/validator SetupRunners does (signature
-// verification on, round-robin proposer, the attester value check, highest decided slot 0).
+// newNode builds controller + duty runner the way operator/validator SetupRunners does for the role (signature
+// verification on, round-robin proposer, the role's spec value check, highest decided slot 0).
 func (e *env) newNode() *node {
 	km := testingutils.NewTestingKeyManager()
-	valCheck := specssv.AttesterValueCheckF(km, spectypes.BeaconTestNetwork, e.share.ValidatorPubKey, testingutils.TestingValidatorIndex, e.share.SharePubKey)
+	pk, idx := e.share.ValidatorPubKey, phase0.ValidatorIndex(testingutils.TestingValidatorIndex)
 	net := &fx.Net{}
+	bn := beaconNode{testingutils.NewTestingBeaconNode()}
+	var valCheck specqbft.ProposedValueCheckF
+	switch e.role {
+	case spectypes.BNRoleAttester:
+		valCheck = specssv.AttesterValueCheckF(km, spectypes.BeaconTestNetwork, pk, idx, e.share.SharePubKey)
+	case spectypes.BNRoleAggregator:
+		valCheck = specssv.AggregatorValueCheckF(km, spectypes.BeaconTestNetwork, pk, idx)
+	case spectypes.BNRoleProposer:
+		valCheck = specssv.ProposerValueCheckF(km, spectypes.BeaconTestNetwork, pk, idx, e.share.SharePubKey)
+	case spectypes.BNRoleSyncCommitteeContribution:
+		valCheck = specssv.SyncCommitteeContributionValueCheckF(km, spectypes.BeaconTestNetwork, pk, idx)
+	}
 	cfg := fx.NodeConfig(net, &fx.Timer{}, e.store, true)
 	cfg.ValueCheckF = valCheck
 	ctrl := controller.NewController(e.id, e.share, cfg, e.p.Full)
-	r := runner.NewAttesterRunnner(spectypes.BeaconTestNetwork, e.share, ctrl, testingutils.NewTestingBeaconNode(), net, km, valCheck, 0)
-	return &node{ctrl: ctrl, run: r}
+	var r runner.Runner
+	switch e.role {
+	case spectypes.BNRoleAttester:
+		r = runner.NewAttesterRunnner(spectypes.BeaconTestNetwork, e.share, ctrl, bn, net, km, valCheck, 0)
+	case spectypes.BNRoleAggregator:
+		r = runner.NewAggregatorRunner(spectypes.BeaconTestNetwork, e.share, ctrl, bn, net, km, valCheck, 0)
+	case spectypes.BNRoleProposer:
+		r = runner.NewProposerRunner(spectypes.BeaconTestNetwork, e.share, ctrl, bn, net, km, valCheck, 0)
+	case spectypes.BNRoleSyncCommitteeContribution:
+		r = runner.NewSyncCommitteeAggregatorRunner(spectypes.BeaconTestNetwork, e.share, ctrl, bn, net, km, valCheck, 0)
+	}
+	return &node{ctrl: ctrl, run: r, net: net}
+}
+
+// ownPreConsensus returns the pre-consensus message the node broadcast last (its own partial signatures): the other
+// operators sign the same roots.
+func (e *env) ownPreConsensus() *spectypes.SignedPartialSignatureMessage {
+	var out *spectypes.SignedPartialSignatureMessage
+	for _, m := range e.nd.net.Drain() {
+		if m.MsgType != spectypes.SSVPartialSignatureMsgType {
+			continue
+		}
+		sm := &spectypes.SignedPartialSignatureMessage{}
+		if err := sm.Decode(m.Data); err == nil && sm.Message.Type != spectypes.PostConsensusPartialSig {
+			out = sm
+		}
+	}
+	return out
+}
+
+// preConsensusFrom builds operator id's pre-consensus message for the same roots as own: genuine threshold shares
+// (the runner reconstructs the validator signature from a quorum of them and verifies it).
+func (e *env) preConsensusFrom(own *spectypes.SignedPartialSignatureMessage, id uint64) *spectypes.SignedPartialSignatureMessage {
+	sk := e.ks.Shares[spectypes.OperatorID(id)]
+	msgs := spectypes.PartialSignatureMessages{Type: own.Message.Type, Slot: own.Message.Slot}
+	for _, m := range own.Message.Messages {
+		msgs.Messages = append(msgs.Messages, &spectypes.PartialSignatureMessage{
+			PartialSignature: sk.SignByte(append([]byte(nil), m.SigningRoot[:]...)).Serialize(), // cgo: a plain byte buffer
+			SigningRoot:      m.SigningRoot,
+			Signer:           spectypes.OperatorID(id),
+		})
+	}
+	root, err := spectypes.ComputeSigningRoot(msgs, spectypes.ComputeSignatureDomain(fx.Domain, spectypes.PartialSignatureType))
+	if err != nil {
+		panic(err)
+	}
+	return &spectypes.SignedPartialSignatureMessage{Message: msgs, Signature: sk.SignByte(root[:]).Serialize(), Signer: spectypes.OperatorID(id)}
 }
 
 // startNode is Validator.Start's part for one runner: LoadHighestInstance on the brand-new controller, then
@@ -359,7 +455,7 @@ func (e *env) signersOf(op Op) []uint64 {
 }
 
 func (e *env) cert(height, round uint64, signers []uint64) *specqbft.SignedMessage {
-	key := fmt.Sprintf("%d/%d/%d/%v", e.p.N, height, round, signers)
+	key := fmt.Sprintf("%d/%d/%d/%d/%v", e.role, e.p.N, height, round, signers)
 	valMu.Lock()
 	enc, ok := crtMemo[key]
 	valMu.Unlock()
@@ -370,7 +466,7 @@ func (e *env) cert(height, round uint64, signers []uint64) *specqbft.SignedMessa
 		}
 		return m
 	}
-	value := valueFor(e.share, height)
+	value := valueFor(e.role, e.share, height)
 	root, err := specqbft.HashDataRoot(value)
 	if err != nil {
 		panic(err)
@@ -393,7 +489,7 @@ func (e *env) cert(height, round uint64, signers []uint64) *specqbft.SignedMessa
 }
 
 func (e *env) single(t specqbft.MessageType, height uint64, signer uint64, withData bool) *specqbft.SignedMessage {
-	value := valueFor(e.share, height)
+	value := valueFor(e.role, e.share, height)
 	root, _ := specqbft.HashDataRoot(value)
 	msg := &specqbft.Message{MsgType: t, Height: specqbft.Height(height), Round: specqbft.FirstRound, Identifier: e.id, Root: root}
 	sm := fx.Sign(e.ks, spectypes.OperatorID(signer), msg)
@@ -413,8 +509,9 @@ func fail(res *prog.Result, e *env, sig, f string, a ...any) *prog.Result {
 func run(p Prog) *prog.Result {
 	res := &prog.Result{}
 	ks := fx.KeySet(p.N)
-	mid := fx.Identifier(ks, spectypes.BNRoleAttester)
-	e := &env{p: p, ks: ks, q: int(ks.Threshold), share: fx.Share(ks, spectypes.OperatorID(p.Self)), id: mid[:], prefix: nextPrefix()}
+	role := roleOf(p.Role)
+	mid := fx.Identifier(ks, role)
+	e := &env{p: p, role: role, ks: ks, q: int(ks.Threshold), share: fx.Share(ks, spectypes.OperatorID(p.Self)), id: mid[:], prefix: nextPrefix()}
 	if p.Disk {
 		e.db = getDiskDB()
 	} else {
@@ -431,6 +528,13 @@ func run(p Prog) *prog.Result {
 	cls(map[bool]string{true: "node=full", false: "node=light"}[p.Full])
 	cls(map[bool]string{true: "db=disk", false: "db=memory"}[p.Disk])
 	cls(fmt.Sprintf("committee=%d", p.N))
+	cls("role=" + role.String())
+	// a role with a pre-consensus phase: StartNewDuty only signs and broadcasts the pre-consensus partial signature,
+	// consensus starts when a quorum of them arrived. For these roles the refusal of an old duty is decided by
+	// ShouldProcessDuty alone, and an accepted duty does not raise the floor (nothing was started yet).
+	preRole := role != spectypes.BNRoleAttester
+	var ownPre *spectypes.SignedPartialSignatureMessage // the node's pre-consensus message of the accepted duty
+	firstDutySeen := false                              // a duty was attempted since the node object was created
 	if p.Base == 0 {
 		cls("genesis-base")
 	}
@@ -509,9 +613,10 @@ func run(p Prog) *prog.Result {
 		return nil
 	}
 
-	doDuty := func(step int, slot uint64) *prog.Result {
-		err := e.nd.run.StartNewDuty(logger, dutyFor(e.share, slot))
-		e.logf("%d: StartNewDuty(slot %d) -> %v   [floor %s]", step, slot, err, floorStr(hasFloor, floor))
+	doDuty := func(step int, slot uint64, how string) *prog.Result {
+		nilState := e.nd.run.GetBaseRunner().State == nil
+		err := e.nd.run.StartNewDuty(logger, dutyFor(e.role, e.share, slot))
+		e.logf("%d: StartNewDuty(slot %d)%s -> %v   [floor %s]", step, slot, how, err, floorStr(hasFloor, floor))
 		if slot == 0 {
 			cls("slot-0-duty")
 		}
@@ -519,15 +624,25 @@ func run(p Prog) *prog.Result {
 			res.NonTrivial = true
 			cls("rerun-attempt-after-restart")
 		}
-		if err == nil {
-			if atOrBelow(slot) && slot == 0 {
-				// ShouldProcessDuty's documented genesis exemption (Height != 0): a duty for slot 0 is let through even when
-				// height 0 is known. Slot 0 lies years in the past for every real network; counted, not judged.
-				cls("obs:slot-0-duty-accepted-under-genesis-exemption")
-				raise(slot)
-				return judgeStore(step, "duty", -1)
+		stale := atOrBelow(slot)
+		if stale {
+			if nilState {
+				cls("stale-duty-with-nil-runner-state")
 			}
-			if atOrBelow(slot) {
+			if !firstDutySeen && !restarted {
+				cls("stale-duty-as-first-duty-of-new-node")
+			}
+			if !firstDutySeen && restarted {
+				cls("stale-duty-as-first-duty-after-restart")
+			}
+		}
+		firstDutySeen = true
+		if err == nil {
+			if stale && preRole && floor == 0 {
+				// FirstHeight special case, documented in ShouldProcessDuty ("&& Height != 0"): at controller height 0 the
+				// pre-consensus phase of a slot-0 duty is accepted again; consensus for it is still refused (precons op)
+				cls("obs:slot-0-duty-accepted-at-height-0")
+			} else if stale {
 				sig := "C15:duty-started-at-or-below-floor"
 				if restarted && slot <= restoredHeight {
 					sig = "C15:duty-rerun-after-restart"
@@ -539,8 +654,12 @@ func run(p Prog) *prog.Result {
 				// accepted by the reference model (the floor after a restart is what was persisted), counted only
 				cls("obs:duty-accepted-at-height-learnt-decided-before-a-restart")
 			}
-			raise(slot)
-		} else if atOrBelow(slot) {
+			if preRole {
+				ownPre = e.ownPreConsensus()
+			} else {
+				raise(slot)
+			}
+		} else if stale {
 			cls("duty-refused-at-or-below")
 		} else {
 			cls("duty-refused-above-floor")
@@ -552,13 +671,13 @@ func run(p Prog) *prog.Result {
 		br := e.nd.run.GetBaseRunner()
 		switch op.K {
 		case "duty":
-			if r := doDuty(step, resolve(op.D)); r != nil {
+			if r := doDuty(step, resolve(op.D), ""); r != nil {
 				return r
 			}
 
 		case "ctrlstart":
 			h := resolve(op.D)
-			err := e.nd.ctrl.StartNewInstance(logger, specqbft.Height(h), valueFor(e.share, h))
+			err := e.nd.ctrl.StartNewInstance(logger, specqbft.Height(h), valueFor(e.role, e.share, h))
 			e.logf("%d: Controller.StartNewInstance(height %d) -> %v   [floor %s]", step, h, err, floorStr(hasFloor, floor))
 			cls("direct-instance-start")
 			if restarted && h <= restoredHeight {
@@ -606,6 +725,9 @@ func run(p Prog) *prog.Result {
 			if round != 1 {
 				cls("cert-round>1")
 			}
+			if !firstDutySeen {
+				cls("cert-before-first-duty")
+			}
 			if br.State != nil && !br.State.Finished {
 				cls("cert-while-duty-running")
 			} else {
@@ -630,6 +752,16 @@ func run(p Prog) *prog.Result {
 			decidedRounds[h][round] = true
 			if r := judgeStore(step, "cert", must); r != nil {
 				return r
+			}
+			if op.Probe {
+				// an old duty right after the certificate: at its height or just below
+				ps := int64(h) + int64(op.D2)
+				if ps < 0 || (ps == 0 && p.Base > 0) {
+					ps = int64(h)
+				}
+				if r := doDuty(step, uint64(ps), " right after the certificate"); r != nil {
+					return r
+				}
 			}
 
 		case "local":
@@ -673,6 +805,9 @@ func run(p Prog) *prog.Result {
 			must := int64(-1)
 			if decidedNow {
 				cls("local-decision")
+				if preRole {
+					cls("local-decision:role-with-pre-consensus")
+				}
 				if topmost(h) {
 					must = int64(h)
 				}
@@ -686,6 +821,40 @@ func run(p Prog) *prog.Result {
 				cls("local-partial")
 			}
 			if r := judgeStore(step, "local", must); r != nil {
+				return r
+			}
+
+		case "precons":
+			st := br.State
+			if !preRole || st == nil || st.Finished || st.RunningInstance != nil || ownPre == nil || ownPre.Message.Slot != st.StartingDuty.Slot {
+				e.logf("%d: precons (no duty in its pre-consensus phase: skipped)", step)
+				cls("precons-skipped")
+				continue
+			}
+			slot := uint64(st.StartingDuty.Slot)
+			signers := e.signersOf(op)
+			var errs []string
+			for _, sg := range signers {
+				if err := e.nd.run.ProcessPreConsensus(logger, e.preConsensusFrom(ownPre, sg)); err != nil {
+					errs = append(errs, err.Error())
+				}
+			}
+			started := br.State != nil && br.State.RunningInstance != nil
+			e.logf("%d: pre-consensus partial signatures for slot %d from %v -> consensus started=%v errs=%v   [floor %s]", step, slot, signers, started, errs, floorStr(hasFloor, floor))
+			if started {
+				h := uint64(br.State.RunningInstance.State.Height)
+				cls("precons-consensus-started")
+				cls("precons-consensus-started:" + role.String())
+				if atOrBelow(h) {
+					return fail(res, e, "C15:consensus-started-at-or-below-floor", "step %d: a pre-consensus quorum for the duty of slot %d started consensus at height %d although height %d was already started or learnt decided (restored by restart: %v)", step, slot, h, floor, restarted)
+				}
+				raise(h)
+			} else if atOrBelow(slot) {
+				cls("precons-consensus-refused-at-or-below")
+			} else {
+				cls("precons-no-consensus-above-floor")
+			}
+			if r := judgeStore(step, "precons", -1); r != nil {
 				return r
 			}
 
@@ -710,6 +879,7 @@ func run(p Prog) *prog.Result {
 				cls("reopen-disk")
 			}
 			loadErr := e.startNode()
+			ownPre, firstDutySeen = nil, false
 			after := e.observe()
 			cls("restart")
 			e.logf("%d: restart (reopen=%v) -> load err %v, stored %v, controller height %d   [floor %s]", step, reopened, loadErr, after, e.nd.ctrl.Height, floorStr(hasFloor, floor))
@@ -740,7 +910,7 @@ func run(p Prog) *prog.Result {
 				if uint64(ps) > cursor {
 					cursor = uint64(ps)
 				}
-				if r := doDuty(step, uint64(ps)); r != nil {
+				if r := doDuty(step, uint64(ps), " right after the restart"); r != nil {
 					return r
 				}
 			}
@@ -772,7 +942,7 @@ var allOps = []int{1, 2, 3, 4, 5, 6, 7}
 
 func genOp(t *rapid.T) Op {
 	k := rapid.SampledFrom([]string{"duty", "duty", "duty", "duty", "duty", "cert", "cert", "cert", "cert", "cert", "cert",
-		"local", "local", "local", "restart", "restart", "restart", "restart", "ctrlstart", "finish"}).Draw(t, "k")
+		"local", "local", "local", "precons", "precons", "precons", "restart", "restart", "restart", "restart", "ctrlstart", "finish"}).Draw(t, "k")
 	op := Op{K: k}
 	switch k {
 	case "duty", "ctrlstart":
@@ -781,6 +951,11 @@ func genOp(t *rapid.T) Op {
 		op.D = rapid.SampledFrom([]int{-2, -1, -1, 0, 0, 0, 0, 1, 1, 2}).Draw(t, "d")
 		op.Round = uint64(rapid.SampledFrom([]int{1, 1, 1, 1, 1, 2, 2, 3}).Draw(t, "round"))
 		op.Extra = rapid.SampledFrom([]int{0, 0, 0, 1, 1, 2, 3}).Draw(t, "extra")
+		op.Perm = rapid.Permutation(allOps).Draw(t, "perm")
+		op.Probe = rapid.SampledFrom([]bool{false, false, true}).Draw(t, "probe")
+		op.D2 = rapid.SampledFrom([]int{-1, 0, 0}).Draw(t, "d2")
+	case "precons":
+		op.Extra = rapid.SampledFrom([]int{0, 0, 1}).Draw(t, "extra")
 		op.Perm = rapid.Permutation(allOps).Draw(t, "perm")
 	case "local":
 		op.Upto = rapid.SampledFrom([]string{"commit", "commit", "commit", "commit", "prepare", "proposal"}).Draw(t, "upto")
@@ -797,6 +972,7 @@ func genOp(t *rapid.T) Op {
 func gen(t *rapid.T) Prog {
 	n := rapid.SampledFrom([]int{4, 4, 4, 7}).Draw(t, "n")
 	return Prog{
+		Role: rapid.SampledFrom([]string{"attester", "attester", "aggregator", "proposer", "sync-contribution"}).Draw(t, "role"),
 		N:    n,
 		Self: rapid.IntRange(1, n).Draw(t, "self"),
 		Full: rapid.Bool().Draw(t, "full"),
